@@ -17,13 +17,18 @@ from engine import project as pj
 
 
 def traces_for(tid, prog_desc, n_e, n_p, n_c, rng, settings=(0, 1, 2), backends=("stabilizer", "dm"), init_rows=None,
-               meta=None):
-    """One trace per (backend, setting)."""
+               meta=None, edited=False):
+    """One trace per (backend, setting).  edited: the circuit additionally gets an edit after construction (the SAME edit for
+    every backend / setting: the edit is drawn from a generator seeded once)."""
     from graphiq.state import QuantumState
     out = []
+    edit_seed = rng.randrange(2 ** 31)
+    import random as _random
     for backend in backends:
         for setting in settings:
             circuit = cz.build_circuit(n_e, n_p, n_c, prog_desc)
+            if edited:
+                cz.edit_circuit(circuit, _random.Random(edit_seed))
             circ, _ = cz.project_circuit(circuit)
             init_state = None
             if init_rows is not None:
@@ -111,7 +116,7 @@ def run(ctx):
                 init_rows = sg.random_basis(rng, rng.choice(groups3))
         setting = rng.choice([0, 1, 2, 2])
         t, tid = traces_for(tid, desc, n_e, n_p, n_c, rng, settings=(setting,), init_rows=init_rows,
-                            meta={"kind": "random"})
+                            meta={"kind": "random"}, edited=rng.random() < 0.3)
         traces += t
     ctx.judge("Trace_CircuitRun", traces, label="J: random circuits compiled by both backends")
     ctx.assumptions.append("density-matrix states are compared through their exact Pauli vectors, n <= 4 qubits")
